@@ -127,6 +127,48 @@ def preload():
     import cnfgen.clihelpers
     for _l, name, _p in pkgutil.walk_packages(cnfgen.clihelpers.__path__):
         importlib.import_module('cnfgen.clihelpers.' + name)
+    _install_stage_probe()
+
+
+# How far did a command line get?  The helpers' entry points are wrapped
+# (transparent pass-through) so that an in-process run tells whether the
+# error was raised while parsing ('parse'), in build_formula ('build') or in
+# transform_cnf ('transform').  Only used to give the violations of the
+# "wrong comment marker" kind a narrow key.
+STAGE = []
+_PROBED = set()
+
+
+def _install_stage_probe():
+    from cnfgen.clitools.cmdline import (get_formula_helpers,
+                                         get_transformation_helpers)
+
+    def wrap(cls, attr, tag):
+        raw = cls.__dict__.get(attr)
+        if raw is None or (cls, attr) in _PROBED:
+            return
+        func = raw.__func__ if isinstance(raw, (staticmethod, classmethod)) else raw
+
+        def probe(*a, **k):
+            STAGE.append(tag)
+            return func(*a, **k)
+        probe.__name__ = getattr(func, '__name__', attr)
+        probe.__qualname__ = getattr(func, '__qualname__', attr)
+        probe.__doc__ = func.__doc__
+        setattr(cls, attr, staticmethod(probe))
+        _PROBED.add((cls, attr))
+    for h in get_formula_helpers():
+        wrap(h, 'build_formula', 'build')
+    for h in get_transformation_helpers():
+        wrap(h, 'transform_cnf', 'transform')
+
+
+def stage_reached():
+    if 'transform' in STAGE:
+        return 'transform'
+    if 'build' in STAGE:
+        return 'build'
+    return 'parse'
     import ref.c06_dimacs_ref  # noqa
     import ref.c12_readers  # noqa
 
@@ -1029,7 +1071,7 @@ def line_shielded(line, fmt):
     return line == m or line.startswith(m + ' ')
 
 
-def judge(c, o):
+def judge(c, o, stage='parse'):
     """(class, [(sub-for-key, symptom, detail)]) for the outcome of a case."""
     fmts = c['fmt']
     sub = c['sub']
@@ -1112,7 +1154,8 @@ def judge(c, o):
             others = [f for f in MARK if f not in fmts and
                       all(line_shielded(l, f) for l in lines)]
             if others:
-                bad.append(('*', 'error-prefix:want=%s:got=%s' % ('|'.join(fmts), others[0]),
+                bad.append(('*', 'error-prefix:%s-stage:want=%s:got=%s'
+                            % (stage, '|'.join(fmts), others[0]),
                             'every line of the message starts with %r, the chosen '
                             'format is %s; first line %r'
                             % (MARK[others[0]] + ' ', '|'.join(fmts), lines[0][:100])))
@@ -1157,6 +1200,7 @@ def execute(c, sandbox, process=False):
     data = stdin_bytes(c['stdin'])
     if process:
         return cli.run_process(c['tool'], c['args'], data, sandbox)
+    del STAGE[:]
     return cli.run_inproc(c['tool'], c['args'], data, sandbox)
 
 
@@ -1194,12 +1238,14 @@ def run_slice(args, R):
         for i in range(k, total, n):
             c = cases[i]
             o = execute(c, sb)
+            stage = stage_reached()
             R.stats['inproc_calls'] += 1
-            verdicts = {'inproc': judge(c, o)}
+            R.stats['stage_' + stage] += 1
+            verdicts = {'inproc': judge(c, o, stage)}
             if c['core'] or i % stride == 0:
                 p = execute(c, sb, process=True)
                 R.stats['process_calls'] += 1
-                verdicts['process'] = judge(c, p)
+                verdicts['process'] = judge(c, p, stage)
                 agree = (o.exit == p.exit and o.exc == p.exc and
                          verdicts['inproc'][0] == verdicts['process'][0] and
                          [b[:2] for b in verdicts['inproc'][1]] ==
@@ -1251,8 +1297,10 @@ def replay(case_):
     hows = c.get('how', 'inproc').split('+')
     verdicts = {}
     with cli.Sandbox(fixtures()) as sb:
+        o = execute(c, sb)        # always: tells the stage reached
+        stage = stage_reached()
         if 'inproc' in hows:
-            verdicts['inproc'] = judge(c, execute(c, sb))
+            verdicts['inproc'] = judge(c, o, stage)
         if 'process' in hows:
-            verdicts['process'] = judge(c, execute(c, sb, process=True))
+            verdicts['process'] = judge(c, execute(c, sb, process=True), stage)
     return violations_of(c, verdicts)
